@@ -13,7 +13,8 @@
    survivor, survivors keep excluding each other, a newcomer gets it at once. *)
 From Coq Require Import List Arith NArith Bool.
 Import ListNotations.
-Require Import Aiuti.FLock Aiuti.FLockInv Aiuti.FLockTL Aiuti.FLockFD Aiuti.FLockMutex Aiuti.FLockExec Aiuti.FLockCrash.
+Require Import Aiuti.FLock Aiuti.FLockInv Aiuti.FLockTL Aiuti.FLockFD Aiuti.FLockMutex Aiuti.FLockExec Aiuti.FLockCrash Aiuti.FLockSound.
+Require Aiuti.Case_C13.
 
 (* After the crash of p, at ANY point of ANY run: (1) no descriptor of p is open any
    more; (2) if the lock was held through a descriptor of p it is now free; (3) if it
@@ -72,6 +73,20 @@ Theorem no_soft_state :
     (forall t, inside_b s1 t = inside_b s2 t) /\ (forall o, is_locked s1 o = is_locked s2 o).
 Proof. exact no_soft_state_obs_lemma. Qed.
 Print Assumptions no_soft_state.
+
+(* Model-free soundness of the monitor used on the crash runs (Case_C13.ok): if it accepts an
+   observed case then, after the kill, a fresh non-blocking acquire succeeded at once (and
+   again later) when nobody else was around; while a survivor held the lock the fresh acquire
+   was refused (no overlap with the survivor) and succeeded after the survivor released; a
+   survivor that was waiting obtained the lock. *)
+Theorem monitor_sound :
+  forall reent dflt prog scen wb vops vres died w_held probe1 probe2,
+    Case_C13.ok (Case_C13.CCrash reent dflt prog scen wb vops vres died w_held probe1 probe2) = true ->
+    (scen = 0 -> probe1 = true /\ probe2 = true) /\
+    (scen = 1 -> probe1 = false /\ probe2 = true) /\
+    (2 <= scen -> w_held = true /\ probe1 = false /\ probe2 = true).
+Proof. exact S13.monitor_sound_C13_lemma. Qed.
+Print Assumptions monitor_sound.
 
 (* Non-vacuity.  Process 1 (thread 0, object 0) holds the lock; process 2 (thread 1,
    object 1) is idle.  Crash of process 1: the holder was a descriptor of process 1 and
